@@ -17,8 +17,9 @@ RULE = ('Hypothesis constructions: data abscissae (5-120 values; uniform / clust
         'discontinuous spline); basis non-negative and summing to one; mask == inside the breakpoint range.  Non-trivial = order >= 2, '
         'unsorted evaluation points hitting >= 3 distinct intervals.')
 RULE += '  Also: float32 evaluation points, abscissae near 9000 with closely spaced breakpoints, unsorted data with everyn, a second evaluation on the same object.'
+RULE += ' Round 11: explicit / placed positions whose lowest or highest value is repeated strictly inside the data range.'
 RULE += ' Round 5: repeated interior values with everyn; spacings that divide the data range exactly (breakpoint count asserted).'
-ASSUMPTIONS = ['explicit / placed breakpoints are strictly increasing and data ranges are positive (>= 2 distinct breakpoints result); everyn <= nx/2 '
+ASSUMPTIONS = ['explicit / placed breakpoints are increasing (repeats only of the lowest / highest value) and data ranges are positive (>= 2 distinct breakpoints result); everyn <= nx/2 '
                'with sorted data that are distinct in single precision (the breakpoints are stored as float32), as iterfit passes them',
                'values outside the breakpoint range are not asserted (only the mask is): pydl extrapolates the end polynomial there',
                'coverage of the data range is asserted to float32 rounding (2^-22 x max|x|), as the statement says',
@@ -67,7 +68,19 @@ def case_strategy(draw):
         # positions exactly on the data ends (placed = linspace(min, max, k)): they are inside the range, not outside (D51)
         kw['placed'] = sorted(set([lo] + kw['placed'][1:-1] + [lo + span]))
     bk_int = False
-    if opt in ('bkpt', 'placed') and span >= 10 and draw(st.integers(0, 2)) == 0:
+    dup_ends = False
+    if opt in ('bkpt', 'placed') and draw(st.integers(0, 3)) == 0:
+        # round 11: the lowest / highest supplied position occurs more than once and lies strictly inside the data range (two fibres'
+        # breakpoint lists concatenated): the copy next to the data end is the one that moves onto it, the knots stay in order
+        inner_ = [v for v in kw[opt] if lo + 0.02 * span < v < lo + 0.98 * span]
+        if len(inner_) >= 2:
+            which = draw(st.sampled_from(['low', 'high', 'both']))
+            rep = draw(st.integers(1, 2))
+            kw[opt] = ([inner_[0]] * rep if which != 'high' else []) + inner_ + ([inner_[-1]] * rep if which != 'low' else [])
+            dup_ends = True
+    if dup_ends:
+        pass
+    elif opt in ('bkpt', 'placed') and span >= 10 and draw(st.integers(0, 2)) == 0:
         # whole-number breakpoints held in an integer array (np.arange(0, 101, 10)); the data ends are not whole numbers (D44)
         bk_int = True
         iv = sorted(set(int(round(v)) for v in kw[opt]))
@@ -124,7 +137,7 @@ def case_strategy(draw):
         ev.append([draw(st.sampled_from(['in', 'in', 'in', 'knot', 'end', 'out'])), 0.5 * (1 + draw(uf)), draw(st.integers(0, 40))])
     if bk_int:
         x = [v + 0.37 if v == min(x) else (v - 0.29 if v == max(x) else v) for v in x] if span >= 10 else x
-    return dict(x=x, nord=nord, opt=opt, kw=kw, bk_int=bk_int, ev=ev, coeff_seed=[draw(uf) for _ in range(8)], sort_eval=draw(st.sampled_from([False, False, True])),
+    return dict(x=x, nord=nord, opt=opt, kw=kw, bk_int=bk_int, dup_ends=dup_ends, ev=ev, coeff_seed=[draw(uf) for _ in range(8)], sort_eval=draw(st.sampled_from([False, False, True])),
                 ev_dtype=draw(st.sampled_from(['f8', 'f8', 'f4', 'i8', 'u2', 'i4', 'u8'])), many=draw(st.integers(0, 400)) == 0)
 
 
@@ -145,6 +158,8 @@ def body(case):
             kw[k] = np.array(kw[k], dtype=bdt)
     if case.get('bk_int'):
         note_label('integer-breakpoints')
+    if case.get('dup_ends'):
+        note_label('repeated-end-breakpoints-inside-the-data')
     b = call(bspline, x, nord=nord, **kw)
     with judge('knots'):
         t = np.asarray(b.breakpoints, dtype='f8')
